@@ -258,12 +258,16 @@ func (m *BasicMutableWorld) AddFeature(f Feature) error {
 	references := allReferences(f, m)
 	if existing != nil {
 		(*m.features)[f.FeatureID()] = f
+		var err error
 		for _, reference := range references {
-			if err := ValidateFeature(NewFeatureFromWorld(reference), &ValidateOptions{InvertClockwisePaths: false}, m); err != nil {
-				return err
+			if err = ValidateFeature(NewFeatureFromWorld(reference), &ValidateOptions{InvertClockwisePaths: false}, m); err != nil {
+				break
 			}
 		}
 		(*m.features)[f.FeatureID()] = existing
+		if err != nil {
+			return err
+		}
 	}
 
 	modified := NewModifiedFeatures(f, references, m.features, m)
@@ -863,6 +867,7 @@ func (m *MutableOverlayWorld) AddFeature(f Feature) error {
 
 		for _, reference := range references {
 			if err := ValidateFeature(NewFeatureFromWorld(reference), &ValidateOptions{InvertClockwisePaths: false}, m); err != nil {
+				(*m.features)[f.FeatureID()] = existing
 				return err
 			}
 		}
